@@ -68,6 +68,12 @@ def sem_fixed():
         Field("fx_cells", Ty("arr", args=[user(rgb)], n=12), inline=True),
         Field("fx_rows", Ty("vec", args=[Ty("arr", args=[prim("u8")], n=9)]), inline=True),
         Field("fx_wide", Ty("opt", args=[Ty("arr", args=[prim("bool")], n=32)]), inline=True)]))
+    # struct variants of an internally tagged enum (and a tagged struct) that consist of flattened members only still carry the tag
+    pt = add(Item("FxPoint", "FxPoint", "named", fields=[Field("fx_x", prim("i32")), Field("fx_y", prim("i32"))]))
+    add(Item("FxShapeFlatOnly", "FxShapeFlatOnly", "enum", tag="fx_kind", variants=[
+        Variant("FxAt", "struct", [Field("fx_at", user(pt), flatten=True)]),
+        Variant("FxCircle", "struct", [Field("fx_r", prim("i32"))])]))
+    add(Item("FxTaggedFlatOnly", "FxTaggedFlatOnly", "named", tag="fx_t", fields=[Field("fx_p", user(pt), flatten=True)]))
     # a string literal that looks like the start of a comment, inside the first of two flattened enums of an only-flattened member
     em = add(Item("FxMimeA", "FxMimeA", "enum", variants=[
         Variant("FxImg", "struct", [Field("fx_w", prim("i32"))], rename="image/*"), Variant("FxTxt", "struct", [Field("fx_t", prim("bool"))], rename="text/*")]))
@@ -179,6 +185,20 @@ def graph_fixed():
     add(Item("FgMapCatalogue", "FgMapCatalogue", "named", fields=[
         Field("fg_prices", Ty("map", "HashMap", args=[prim("String"), user(price)]), inline=True),
         Field("fg_sorted", Ty("opt", args=[Ty("vec", args=[Ty("map", "BTreeMap", args=[prim("String"), user(price2)])])]), inline=True)]))
+    # one type named by one variant and flattened / inlined by a later one
+    addr = add(Item("FgEvAddress", "FgEvAddress", "named", fields=[Field("fg_street", prim("String"))]))
+    usr = add(Item("FgEvUser", "FgEvUser", "named", fields=[Field("fg_name", prim("String")), Field("fg_addr", user(addr))], export_to="fgev/"))
+    add(Item("FgEvent", "FgEvent", "enum", variants=[
+        Variant("FgCreated", "newtype", [Field(None, user(usr))]),
+        Variant("FgUpdated", "struct", [Field("fg_user", user(usr), flatten=True), Field("fg_at", prim("u32"))])]))
+    usr2 = add(Item("FgEvUser2", "FgEvUser2", "named", fields=[Field("fg_name2", prim("String")), Field("fg_addr2", user(addr))], export_to="fgev/"))
+    add(Item("FgMessage", "FgMessage", "enum", variants=[
+        Variant("FgFrom", "struct", [Field("fg_who", user(usr2))]),
+        Variant("FgEcho", "struct", [Field("fg_whom", user(usr2), inline=True)])]))
+    # directories and files whose name starts with a dot, imported from the directory that holds them
+    leaf = add(Item("FgDotLeaf", "FgDotLeaf", "named", fields=[Field("fg_dl", prim("u8"))], export_to="fgdot/.generated/"))
+    hid = add(Item("FgDotHidden", "FgDotHidden", "named", fields=[Field("fg_dh", prim("u8"))], export_to="fgdot/.hidden.ts"))
+    add(Item("FgDotRoot", "FgDotRoot", "named", fields=[Field("fg_leaf", user(leaf)), Field("fg_hid", Ty("vec", args=[user(hid)]))], export_to="fgdot/"))
     # directory names that need escaping inside the import statement's string literal
     qd = add(Item("FgQuoteDep", "FgQuoteDep", "named", fields=[Field("fg_q", prim("u8"))], export_to='fg"quo"te/'))
     bd = add(Item("FgBackslashDep", "FgBackslashDep", "named", fields=[Field("fg_b", prim("u8"))], export_to="fgback\\slash/n.ts"))
